@@ -189,30 +189,53 @@ func checkC16(c *Ctx, r *Report) {
 		// attributes appended only under isAnAttribute, free text only under !isAnAttribute; the free text is the line's own text
 		viol := ""
 		var sites []string
-		w.inspectRegion(fi, func(n ast.Node) bool {
-			is, ok := n.(*ast.IfStmt)
+		// (decided on dominating branch facts: `if is {a} else {b}`, `if is {a; continue}; b` and
+		// `if !is {b; continue}; a` are the same dispatch)
+		isAttr := func(v ssa.Value) bool {
+			ex, ok := stripTrivial(v).(*ssa.Extract)
+			if !ok || ex.Index != 1 {
+				return false
+			}
+			cl, ok := ex.Tuple.(*ssa.Call)
+			return ok && calleeName(cl) == pkgAnn+".parseCommentNode"
+		}
+		counts := map[string]int{}
+		allInstrs(fi.SSA, true, func(_ *ssa.Function, _ *ssa.BasicBlock, _ int, ins ssa.Instruction) {
+			st, ok := ins.(*ssa.Store)
 			if !ok {
-				return true
+				return
 			}
-			id, ok := is.Cond.(*ast.Ident)
-			if !ok || id.Name != "isAnAttribute" {
-				return true
+			fa, ok := st.Addr.(*ssa.FieldAddr)
+			if !ok {
+				return
 			}
-			sites = append(sites, w.pos(is.Pos()))
-			thenS, elseS := exprListString(is.Body), ""
-			if is.Else != nil {
-				elseS = exprListString(is.Else)
+			fv := structFieldVar(fa.X.Type(), fa.Field)
+			if fv == nil || (fv.Name() != "attributes" && fv.Name() != "nonAttributeComments") {
+				return
 			}
-			if !strings.Contains(thenS, "holder.attributes = append(holder.attributes, attr)") || strings.Contains(thenS, "nonAttributeComments") {
-				viol = fmt.Sprintf("%s: the attribute arm does not append exactly the parsed attribute", w.pos(is.Pos()))
+			if cl, ok := stripTrivial(st.Val).(*ssa.Call); !ok || calleeName(cl) != "builtin.append" {
+				return // the initialisation of the holder
 			}
-			if !strings.Contains(elseS, "holder.nonAttributeComments = append(holder.nonAttributeComments") || strings.Contains(elseS, "holder.attributes") {
-				viol = fmt.Sprintf("%s: the free-text arm does not append to nonAttributeComments", w.pos(is.Pos()))
+			counts[fv.Name()]++
+			sites = append(sites, w.pos(st.Pos()))
+			want := fv.Name() == "attributes"
+			guarded := false
+			for _, f := range guardsOf(st) {
+				cnd, pol := unwrapNot(f.Cond, f.Pol)
+				if isAttr(cnd) && pol == want {
+					guarded = true
+				}
 			}
-			return true
+			if !guarded {
+				if want {
+					viol = fmt.Sprintf("%s: a line is appended to the attributes although parseCommentNode did not say it is one", w.pos(st.Pos()))
+				} else {
+					viol = fmt.Sprintf("%s: a line is appended to the free text although parseCommentNode said it is an attribute (or without asking)", w.pos(st.Pos()))
+				}
+			}
 		})
-		if len(sites) != 1 {
-			viol = "expected one `if isAnAttribute` dispatch in NewAnnotationHolder"
+		if counts["attributes"] != 1 || counts["nonAttributeComments"] != 1 {
+			viol = fmt.Sprintf("expected one append to each of holder.attributes and holder.nonAttributeComments in NewAnnotationHolder, found %v", counts)
 		}
 		nac := w.lookupType(pkgAnn, "NonAttributeComment")
 		for _, f := range []struct{ field, must string }{{"Value", "gast.CommentNode.Text"}, {"Index", "gast.CommentNode.Index"}} {
@@ -488,11 +511,16 @@ func checkAnnotationRegex(c *Ctx, r *Report, clause string) {
 				return true
 			}
 			cl, ok := as.Rhs[0].(*ast.CallExpr)
-			if !ok || calleeOfCall(info, cl) != pkgAnn+".getGroupString" || len(cl.Args) != 3 {
+			// a group is read as its text (getGroupString) or as its offsets (getGroupOffsets): the
+			// group number is the last operand of either
+			if !ok || len(cl.Args) < 2 {
+				return true
+			}
+			if cn := calleeOfCall(info, cl); cn != pkgAnn+".getGroupString" && cn != pkgAnn+".getGroupOffsets" {
 				return true
 			}
 			sites = append(sites, w.pos(cl.Pos()))
-			if tv, ok := info.Types[cl.Args[2]]; ok && tv.Value != nil {
+			if tv, ok := info.Types[cl.Args[len(cl.Args)-1]]; ok && tv.Value != nil {
 				if id, ok := as.Lhs[0].(*ast.Ident); ok {
 					groupOf[id.Name] = tv.Value.ExactString()
 				}
@@ -532,7 +560,7 @@ func checkAnnotationRegex(c *Ctx, r *Report, clause string) {
 					has3 = true
 				}
 			}
-			if !a.Calls[pkgAnn+".getGroupString"] || !has3 {
+			if !(a.Calls[pkgAnn+".getGroupString"] || a.Calls[pkgAnn+".getGroupOffsets"]) || !has3 {
 				if viol == "" {
 					viol = fmt.Sprintf("%s: the text handed to the JSON5 decoder is not capture group 3", w.pos(cl.Pos()))
 				}
